@@ -44,14 +44,21 @@ def main():
             r = sh(f"git apply {d}/patch.diff", cwd=wt)
             if r.returncode != 0:
                 print(sid, "patch does not apply", r.stderr[-300:]); continue
+            results = {}
             for p in props:
                 env = dict(os.environ, SUMMER2_REPO=wt)
                 out = subprocess.run(["python3", os.path.join(copy, "harness", "check.py"), p, "--tier", "quick"], capture_output=True, text=True,
                                      cwd=copy, env=env, timeout=3000)
                 lines = [l for l in out.stdout.splitlines() if l.startswith(("VIOLATION", "KNOWN-FINDING")) or l.startswith(p + " ")]
                 print(sid, p, "exit", out.returncode, "|", " || ".join(l[:260] for l in lines), flush=True)
+                results[p] = {"exit": out.returncode, "lines": lines}
                 if out.returncode not in (0, 1):
                     print("   stderr tail:", out.stderr[-600:].replace("\n", " | "))
+            if os.environ.get("SEED_RECORD") and os.path.isdir(os.path.join(ROOT, "seeded", sid)) and not props_override:
+                head = sh("git -C %s rev-parse --short HEAD" % ROOT).stdout.strip()
+                results["_how"] = {"mode": "copy of /verif (working tree at " + head + ") run with SUMMER2_REPO pointing at a scratch worktree of /repo with the patch applied "
+                                           "(harness/seedtest_scratch.py); /repo itself untouched"}
+                json.dump(results, open(os.path.join(ROOT, "seeded", sid, "detection.json"), "w"), indent=1)
         finally:
             sh(f"git -C /repo worktree remove --force {wt}")
 
